@@ -339,6 +339,11 @@ func (in *Interp) stmt(t *gt.T) (Val, *RunErr) {
 			in.Set(name, live(i))
 			err := in.block(t.Body)
 			in.pop()
+			if m, ok := it.V.(map[string]any); ok && len(m) != n {
+				// keys added or removed while iterating: which keys are
+				// still visited is unspecified
+				in.Shared.MapOrderDependent = true
+			}
 			if err != nil {
 				return Void, err
 			}
